@@ -22,14 +22,15 @@ RULE = ("real cmd_send.send()/cmd_receive.receive() against the real server, tra
         "(direct or through the real relay); payloads: text (unicode, quotes, control/bidi chars, "
         "newlines), files of 0,1,16383,16384,16385,32767..65536,100000,<=1MB random bytes, directory "
         "trees with empty dirs and odd names; in 30% of the file cases a stale <name>.tmp (shorter or longer than "
-        "the file) from an earlier interrupted attempt lies in the receiver's directory; random TCP chunking; faults swept over the transit "
+        "the file) from an earlier interrupted attempt lies in the receiver's directory; directory trees with dangling "
+        "links sent with --ignore-unsendable-files (everything else must arrive); random TCP chunking; faults swept over the transit "
         "stream: cut/flip of the data direction at byte k (length prefix, nonce, ciphertext, record "
         "boundaries +-1, last byte, fractions), cut/flip inside the ack; a scripted receiver that lies "
         "in its ack (wrong hash, not ok, garbage, none). Non-trivial = transit was established (or text "
         "delivered); distinct = (payload kind, size, fault, position, path).")
 ASSUMPTIONS = ["file modes/timestamps are not compared", "a leftover <dest>.tmp after a failure is allowed",
                "sizes <= ~1 MB, trees <= 12 entries"]
-FLOORS = {"quick": {"clean_success": 60, "data_faults_fired": 50, "ack_faults_fired": 10, "liar_cases": 20, "grow_cases": 15, "stale_tmp_cases": 30},
+FLOORS = {"quick": {"clean_success": 60, "data_faults_fired": 50, "ack_faults_fired": 10, "liar_cases": 20, "grow_cases": 15, "stale_tmp_cases": 30, "unsendable_entries_skipped": 20},
           "thorough": {"clean_success": 2000, "data_faults_fired": 4000, "ack_faults_fired": 250, "liar_cases": 800}}
 APPID = "lothar.com/wormhole/text-or-file-xfer"
 TEXTS = ["hello", "", "it's \"quoted\"", "line1\nline2\r\n\ttab", "\x1b[31mred\x1b[0m \x07bell", "‮evil‬ bidi",
@@ -75,6 +76,10 @@ def cases(tier, seed, prep=None):
     for i in range(24 if q else 600):
         out.append({"kind": "grow", "payload": "file", "seed": base + k, "size0": [0, 0, 5, 16384][i % 4], "append": [1, 100, 20000][i % 3],
                     "relay": i % 5 == 0})
+        k += 1
+    # rarely used options: --ignore-unsendable-files over trees with dangling links, --code-length, --verify off/on
+    for i in range(24 if q else 600):
+        out.append({"kind": "clean", "payload": "directory", "seed": base + k, "relay": i % 5 == 0, "unsendable": True})
         k += 1
     for i in range(28 if q else 1000):
         out.append({"kind": "liar", "payload": "file", "seed": base + k, "lie": ["wrong-hash", "not-ok", "garbage", "never"][i % 4]})
@@ -163,7 +168,8 @@ def _run(spec, world, rng, r, base):
         sa = mkargs(text=text, code=code, transit_helper=helper, listen=listen)
         desc = {"kind": "text", "text": text}
     else:
-        what, desc = make_tree(rng, sd, payload)
+        unsend = payload == "directory" and spec.get("unsendable", False)
+        what, desc = make_tree(rng, sd, payload, unsendable=unsend)
         if spec["kind"] == "grow":
             with open(os.path.join(sd, desc["name"]), "wb") as f:
                 f.write(rng.randbytes(spec["size0"]))
@@ -173,7 +179,7 @@ def _run(spec, world, rng, r, base):
             with open(os.path.join(sd, desc["name"]), "wb") as f:
                 f.write(rng.randbytes(n))
             desc["size"] = n
-        sa = mkargs(what=what, code=code, transit_helper=helper, listen=listen)
+        sa = mkargs(what=what, code=code, transit_helper=helper, listen=listen, ignore_unsendable_files=bool(unsend))
         if payload == "file" and rng.random() < 0.3:
             # what an earlier, interrupted attempt leaves behind in the receiver's directory
             with open(os.path.join(rd, desc["name"] + ".tmp"), "wb") as f:
@@ -301,8 +307,20 @@ def _run(spec, world, rng, r, base):
                 viol.append({"key": "C04/file/differs-after-success", "msg": "sent %r received %r" % (src[name][:3], dst.get(name)), "witness": wit})
         else:
             name = desc["name"]
-            s_tree = {k[len(name) + 1:]: (v[:3] if v[0] == "file" else ("dir",)) for k, v in src.items() if k.startswith(name + os.sep)}
+            s_tree = {k[len(name) + 1:]: (v[:3] if v[0] == "file" else ("dir",)) for k, v in src.items() if k.startswith(name + os.sep)
+                      and k[len(name) + 1:] not in desc.get("unsendable", [])}
             d_tree = {k[len(name) + 1:]: (v[:3] if v[0] == "file" else ("dir",)) for k, v in dst.items() if k.startswith(name + os.sep)}
+            # a directory that holds nothing but skipped (unsendable) entries was never "read" as an empty directory:
+            # whether it shows up at the receiver is not part of the property
+            uns = desc.get("unsendable", [])
+            if uns:
+                for dname in [k for k, v in s_tree.items() if v == ("dir",)]:
+                    below_sendable = [k for k in s_tree if k.startswith(dname + os.sep) and s_tree[k] != ("dir",)]
+                    below_skipped = [u for u in uns if u.startswith(dname + os.sep)]
+                    if below_skipped and not below_sendable:
+                        for k in [k for k in list(s_tree) if k == dname or k.startswith(dname + os.sep)]:
+                            s_tree.pop(k, None)
+                            d_tree.pop(k, None)
             if name not in dst or s_tree != d_tree:
                 missing = sorted(set(s_tree) - set(d_tree))[:5]
                 extra = sorted(set(d_tree) - set(s_tree))[:5]
@@ -343,7 +361,7 @@ def _run(spec, world, rng, r, base):
     return {"violations": viol, "nontrivial": nontrivial,
             "counters": {"clean_success": int(clean and so == "success" and ro == "success"),
                          "data_faults_fired": int(kind == "datafault" and fired), "ack_faults_fired": int(kind == "ackfault" and fired),
-                         "liar_cases": int(kind == "liar" and bool(liar_log)), "grow_cases": int(kind == "grow" and bool(grown)), "stale_tmp_cases": int(bool(desc.get("stale_tmp"))), "clean_failed": int(bool(clean_failure)), "hangs": int(bool(hang)), "faults_not_reached": int(kind in ("datafault", "ackfault") and not fired),
+                         "liar_cases": int(kind == "liar" and bool(liar_log)), "grow_cases": int(kind == "grow" and bool(grown)), "stale_tmp_cases": int(bool(desc.get("stale_tmp"))), "unsendable_entries_skipped": len(desc.get("unsendable", [])), "clean_failed": int(bool(clean_failure)), "hangs": int(bool(hang)), "faults_not_reached": int(kind in ("datafault", "ackfault") and not fired),
                          "payload_" + payload: 1, "via_relay": int(any(l.tags.get("port") == 4001 for l in r.links)),
                          "steps": world.step, "bytes_payload": desc.get("size", 0)},
             "sets": {"clean_transfers_that_failed": [clean_failure] if clean_failure else [],
